@@ -364,9 +364,13 @@ def activate_domain_and_interventions(
         if not children:
             # every variable of the term is held fixed by the experiment, so its probability is one
             return One()
+        # a conditional keeps the conditions the experiment does not hold fixed
+        parents = set(expression.parents) - interventions
         return PopulationProbability(
             population=domain,
-            distribution=Distribution.safe(children),
+            distribution=Distribution(
+                children=tuple(sorted(children)), parents=tuple(sorted(parents))
+            ),
         ).intervene(interventions)
     if isinstance(expression, Sum):
         # TODO need full integration test to trso() function that covers this branch
